@@ -65,6 +65,14 @@ Par3dAx ==
     [G0("par3dax-k304-explicit", "par3dax") EXCEPT !.k = K304, !.p0 = V3(I(1), I(2), I(-6)),
          !.ax = <<V3(Q(4, 5), QZero, Q(-3, 5)), V3(QZero, QOne, QZero)>>, !.t = V3(Q(1, 2), I(0), I(-1))],
     [G0("par3dax-kneg", "par3dax") EXCEPT !.k = KNeg],
+    \* detector frames that are not orthogonal (sheared) and / or left-handed: the constructor only needs
+    \* linearly independent axes for flat 2-d detectors
+    [G0("par3dax-sheared", "par3dax") EXCEPT !.ax = <<V3(QOne, QZero, QZero), V3(Q(3, 5), QZero, Q(4, 5))>>,
+         !.t = V3(I(1), I(-2), I(3))],
+    [G0("par3dax-sheared-lefthanded", "par3dax") EXCEPT !.k = K304, !.p0 = V3(I(1), I(2), I(-6)),
+         !.ax = <<V3(Q(5, 13), Q(12, 13), QZero), V3(QOne, QZero, QZero)>>],
+    [G0("par3dax-matrix-shear", "par3dax") EXCEPT
+         !.mat = <<V3(I(1), I(0), I(0)), V3(I(0), I(1), I(0)), V3(Q(3, 4), I(0), I(1))>>],
     [G0("par3dax-matrix", "par3dax") EXCEPT
          !.mat = <<<<I(0), I(0), I(-1), I(0)>>, <<I(0), I(1), I(0), I(1)>>, <<I(1), I(0), I(0), I(1)>>>>],
     [G0("par3dax-matrix-rot", "par3dax") EXCEPT
@@ -77,6 +85,9 @@ Par3dEu ==
          !.ax = <<V3(Q(4, 5), QZero, Q(-3, 5)), V3(QZero, QOne, QZero)>>],
     [G0("par3deu-pos0-explicit", "par3deu") EXCEPT !.p0 = V3(I(0), I(0), I(0)),
          !.ax = <<V3(Q(4, 5), QZero, Q(-3, 5)), V3(QZero, QOne, QZero)>>],
+    [G0("par3deu-sheared", "par3deu") EXCEPT !.p0 = V3(I(2), I(-1), I(2)),
+         !.ax = <<V3(Q(3, 5), QZero, Q(4, 5)), V3(QZero, QZero, QOne)>>],
+    [G0("par3deu-lefthanded", "par3deu") EXCEPT !.ax = <<V3(QZero, QZero, QOne), V3(QOne, QZero, QZero)>>],
     [G0("par3deu-matrix", "par3deu") EXCEPT
          !.mat = <<<<I(0), I(0), I(-1), I(0)>>, <<I(0), I(1), I(0), I(1)>>, <<I(1), I(0), I(0), I(1)>>>>] }
 
@@ -100,6 +111,9 @@ Cone ==
     [G0("cone-matrix-shifts", "cone") EXCEPT
          !.mat = <<<<Q(1, 3), Q(-2, 3), Q(2, 3), I(1)>>, <<Q(-2, 3), Q(1, 3), Q(2, 3), I(0)>>, <<Q(2, 3), Q(2, 3), Q(1, 3), I(-1)>>>>,
          !.ss = V3(Q(1, 2), Q(-1, 4), Q(1, 3)), !.ds = V3(Q(-1, 3), Q(1, 2), Q(1, 4)), !.det = Cyl(I(8))],
+    [G0("cone-sheared", "cone") EXCEPT !.ax = <<V3(QOne, QZero, QZero), V3(Q(3, 5), QZero, Q(4, 5))>>, !.dz = Q(1, 2)],
+    [G0("cone-lefthanded", "cone") EXCEPT !.k = K304, !.e = V3(Q(4, 5), QZero, Q(-3, 5)),
+         !.ax = <<K304, V3(QZero, QOne, QZero)>>, !.t = V3(I(0), I(1), Q(1, 2))],
     [G0("cone-matrix", "cone") EXCEPT
          !.mat = <<<<I(0), I(0), I(-1), I(0)>>, <<I(0), I(1), I(0), I(1)>>, <<I(1), I(0), I(0), I(1)>>>>],
     [G0("cone-e-oblique", "cone") EXCEPT !.e = V3(Q(2, 3), Q(1, 3), Q(2, 3)),
